@@ -120,6 +120,8 @@ pub struct Runner {
     /// a zombie (dropped, unobserved connection task) exists or existed in this history
     pub saw_zombie: bool,
     pub check_snapshot: bool,
+    /// known-finding situations met in this history (key, description)
+    pub known_hits: Vec<(String, String)>,
 }
 
 fn payload_equal(expected: &[u8], real: &[u8], recipient_minor: u32) -> bool {
@@ -147,6 +149,7 @@ impl Runner {
             comparisons: 0,
             saw_zombie: false,
             check_snapshot: true,
+            known_hits: Vec::new(),
         }
     }
 
@@ -166,7 +169,7 @@ impl Runner {
     }
 
     /// Unify one expected (canonical) message with one real message; binds fresh names on success.
-    fn unify(&self, e: &RefMessage, r: &RefMessage, recipient_minor: u32, binds: &mut Vec<(U, U)>, sbinds: &mut Vec<(u32, u32)>) -> bool {
+    fn unify(&self, e: &RefMessage, r: &RefMessage, recipient_minor: u32, binds: &mut Vec<(U, U)>, sbinds: &mut Vec<(sym::SerialNs, u32, u32)>) -> bool {
         if e.kind != r.kind || e.atoms.len() != r.atoms.len() {
             return false;
         }
@@ -188,20 +191,21 @@ impl Runner {
                     }
                 }
                 (Atom::V(x), Atom::V(y)) => {
-                    if spos == Some(i) && sym::is_bserial(*x) {
-                        match self.maps.s_c2r.get(x) {
+                    if spos.map(|p| p.0) == Some(i) && sym::is_bserial(*x) {
+                        let ns = spos.unwrap().1;
+                        match self.maps.serial_c2r(ns, *x) {
                             Some(bound) => {
-                                if bound != y {
+                                if bound != *y {
                                     return false;
                                 }
                             }
                             None => {
-                                if let Some((_, prev)) = sbinds.iter().find(|(c, _)| c == x) {
+                                if let Some((_, _, prev)) = sbinds.iter().find(|(n, c, _)| *n == ns && c == x) {
                                     if prev != y {
                                         return false;
                                     }
                                 } else {
-                                    sbinds.push((*x, *y));
+                                    sbinds.push((ns, *x, *y));
                                 }
                             }
                         }
@@ -259,8 +263,8 @@ impl Runner {
                             return Err(self.viol("cookie-not-fresh", msg));
                         }
                     }
-                    for (canon, realv) in sbinds {
-                        let _ = self.maps.bind_serial(canon, realv);
+                    for (ns, canon, realv) in sbinds {
+                        let _ = self.maps.bind_serial(ns, canon, realv);
                     }
                     found = true;
                     break;
@@ -366,6 +370,12 @@ impl Runner {
         }
         // connection ends
         for (c, way) in &exp.ended {
+            if *way == EndWay::ConversionFailed {
+                self.known_hits.push((
+                    "undecodable-payload-closes-older-recipient".to_string(),
+                    format!("connection c{c} (1.{}) was closed because a payload sent to it by a 1.20 peer could not be converted to its version", self.model.conns[*c].minor),
+                ));
+            }
             let end = self.world.conn_end(*c);
             let ok = match way {
                 EndWay::ClientShutdown | EndWay::Kicked => end == Some(ConnEnd::Ok),
@@ -437,6 +447,11 @@ impl Runner {
             *l = format!("[{}] {}", self.steps, a.text());
         }
         self.monitors.observe_action(&self.model, a);
+        // the broker's random pick of an introspection registrant is owned by the harness in every
+        // step (hook H2): index 0 unless the action says otherwise
+        let pick0 = if let Action::Send { pick, .. } = a { *pick } else { 0 };
+        self.model.set_rand_pick(pick0);
+        World::install_rand(pick0);
         match a {
             Action::Connect { major, minor, legacy } => {
                 let first = if *legacy {
@@ -493,14 +508,11 @@ impl Runner {
                 self.post_step(Out::default(), before)
             }
             Action::Send { c, m, pick } => {
-                self.model.set_rand_pick(*pick);
-                World::install_rand(*pick);
+                let _ = pick;
                 let exp = self.model.recv(*c, m);
                 let real = self.maps.to_real(m);
                 self.world.send_raw(*c, &real);
-                let r = self.post_step(exp, before);
-                World::clear_rand();
-                r
+                self.post_step(exp, before)
             }
             Action::ClientShutdown(c) => {
                 let exp = self.model.client_shutdown(*c);
@@ -585,7 +597,9 @@ impl Runner {
                 return Err(self.viol("broker-shutdown-message", format!("connection c{c} received {shutdowns} Shutdown messages on broker shutdown")));
             }
             for m in &real {
-                if m.kind != k::SHUTDOWN && m.kind != k::CHANNEL_END_CLOSED {
+                // what the teardown of *other* connections may still deliver, depending on the order in
+                // which the broker removes them
+                if !matches!(m.kind, k::SHUTDOWN | k::CHANNEL_END_CLOSED | k::QUERY_INTROSPECTION_REPLY | k::QUERY_INTROSPECTION) {
                     return Err(self.viol("broker-shutdown-message", format!("connection c{c} received {} during broker shutdown", sym::render(&self.maps.to_canon(m)))));
                 }
             }
@@ -604,6 +618,18 @@ impl Runner {
     /// way, ask for idle shutdown, and require that everything terminates with empty state.
     pub fn teardown(&mut self, way: u8) -> Result<(), Viol> {
         let live: Vec<Cid> = self.model.broker_conns();
+        // Finding F4: a connection whose task was dropped and to which the broker has not tried to
+        // send anything since is still fully present in the broker (the snapshot comparison of the
+        // step that dropped it has just confirmed that). The literal property ("its task being
+        // dropped ... everything it owned is released") is violated in exactly this situation.
+        for c in &live {
+            if self.model.conns[*c].state == CState::Zombie {
+                self.known_hits.push((
+                    "dropped-connection-task-unobserved".to_string(),
+                    format!("connection c{c}: task dropped, no delivery attempted since; the broker still lists the connection and everything it owns"),
+                ));
+            }
+        }
         for c in live {
             let a = match (self.model.conns[c].state, way % 3) {
                 (CState::Zombie, _) => Action::Kick(c),
